@@ -449,10 +449,11 @@ pub fn concat_parallel_results(results: Vec<Vec<DataChunk>>) -> Vec<DataChunk> {
 pub fn merge_distinct_results(
     results: Vec<Vec<DataChunk>>,
 ) -> Result<Vec<DataChunk>, OperatorError> {
-    use std::collections::HashSet;
+    use std::collections::HashMap;
 
-    // Simple row-based deduplication using hash
-    let mut seen: HashSet<u64> = HashSet::new();
+    // Row-based deduplication: the hash finds the candidates, the values decide.
+    // (Different rows can have the same hash, e.g. (NULL, 0) and (0, NULL).)
+    let mut seen: HashMap<u64, Vec<usize>> = HashMap::new();
     let mut unique_rows: Vec<Vec<Value>> = Vec::new();
 
     for chunks in results {
@@ -468,8 +469,9 @@ pub fn merge_distinct_results(
                     row.push(val);
                 }
 
-                let hash = hash_row(&row);
-                if seen.insert(hash) {
+                let candidates = seen.entry(hash_row(&row)).or_default();
+                if !candidates.iter().any(|&u| same_row(&unique_rows[u], &row)) {
+                    candidates.push(unique_rows.len());
                     unique_rows.push(row);
                 }
             }
@@ -477,6 +479,17 @@ pub fn merge_distinct_results(
     }
 
     rows_to_chunks(unique_rows, 2048)
+}
+
+/// Row identity as DISTINCT understands it: same values in every column, floats by
+/// bit pattern (so NaN is one value and 0.0 differs from -0.0), no numeric coercion.
+fn same_row(a: &[Value], b: &[Value]) -> bool {
+    use grafeo_common::types::HashableValue;
+
+    a.len() == b.len()
+        && a.iter()
+            .zip(b)
+            .all(|(x, y)| HashableValue::new(x.clone()) == HashableValue::new(y.clone()))
 }
 
 fn hash_row(row: &[Value]) -> u64 {
@@ -671,5 +684,25 @@ mod tests {
         let result = merge_sorted_runs(runs, &[SortKey::ascending(0)]).unwrap();
         let expected = vec![r(1, 4), r(2, 2), r(2, 6), r(3, 1), r(3, 3), r(3, 5)];
         assert_eq!(result, expected);
+    }
+
+    #[test]
+    fn test_merge_distinct_results_keeps_rows_with_equal_hashes() {
+        let chunk = |a: Value, b: Value| {
+            DataChunk::new(vec![
+                ValueVector::from_values(&[a]),
+                ValueVector::from_values(&[b]),
+            ])
+        };
+        // (NULL, 0) and (0, NULL) feed the hasher the same bytes; NULL and FALSE too
+        let results = vec![
+            vec![chunk(Value::Null, Value::Int64(0))],
+            vec![chunk(Value::Int64(0), Value::Null)],
+            vec![chunk(Value::Null, Value::Int64(0))],
+            vec![chunk(Value::Bool(false), Value::Int64(0))],
+        ];
+        let merged = merge_distinct_results(results).unwrap();
+        let total_rows: usize = merged.iter().map(DataChunk::len).sum();
+        assert_eq!(total_rows, 3);
     }
 }
